@@ -390,7 +390,7 @@ class Profile:
 
 _ALL = {
     'tuple': 3, 'list': 3, 'deque': 2, 'dict': 4, 'odict': 3, 'ddict': 3, 'nt': 3, 'ss': 1.5,
-    'cseq': 1.5, 'clist': 1, 'cmap': 1.5, 'cattr': 1, 'cns': 1, 'cshadow': 1.5, 'cuser': 1, 'udict': 1,
+    'cseq': 1.5, 'creent': 1.5, 'clist': 1, 'cmap': 1.5, 'cattr': 1, 'cns': 1, 'cshadow': 1.5, 'cuser': 1, 'udict': 1,
     'dc': 1, 'dcg': 1, 'partial': 1, 'pdc': 1,
 }
 PROFILES = {
@@ -473,10 +473,12 @@ class TreeGen:
         meta = rng.choice([None, 0, 'm', ('t', 1), 'other', 1000, 'a longer metadata string', (257, 'x', 2.5)])
         if k == 'cseq':
             return D('custom', kids(n), cls=U.CSeq, meta=meta)
+        if k == 'creent':
+            return D('custom', kids(n), cls=U.CReent, meta=meta)
         if k == 'clist':
             return D('custom', kids(n), cls=U.CList, meta=meta)
         if k == 'cns':
-            return D('custom', kids(n), cls=U.CNs, meta=meta)
+            return D('custom', kids(n), cls=rng.choice((U.CNs, U.CNs, U.CHist)), meta=meta)
         if k == 'cshadow':
             return D('custom', kids(n), cls=rng.choice((U.CShadow, U.CShadow2)), meta=meta)
         if k == 'cuser':
@@ -945,7 +947,7 @@ def neutral_edit(desc: D, rng):
 
 
 BREAK_EDITS = ('kind', 'kindx', 'rebracket', 'arity+', 'arity-', 'key', 'ntclass', 'meta', 'node2leaf', 'none2leaf', 'leaf2none', 'none2node')
-SEQ_CUSTOM = (U.CSeq, U.CList, U.CShadow, U.CShadow2, U.CUser)  # custom nodes of any arity built from (kids, meta)
+SEQ_CUSTOM = (U.CSeq, U.CReent, U.CList, U.CShadow, U.CShadow2, U.CUser)  # (CNs / CHist live in a namespace: not used as retarget options)  # custom nodes of any arity built from (kids, meta)
 
 
 def _var_arity(node):
@@ -1022,7 +1024,7 @@ def breaking_edit(desc: D, rng, only=None):  # noqa: C901
             if e == 'ntclass' and node.k == 'nt' and node.cls in (U.Point, U.PointSub, U.PointMeth):
                 node.cls = rng.choice([c for c in (U.Point, U.PointSub, U.PointMeth) if c is not node.cls])
                 return out, e
-            if e == 'meta' and node.k == 'custom' and node.cls in (U.CSeq, U.CList, U.CUser, U.CShadow, U.CShadow2, U.DCG):
+            if e == 'meta' and node.k == 'custom' and node.cls in (U.CSeq, U.CReent, U.CList, U.CUser, U.CShadow, U.CShadow2, U.DCG):
                 node.meta = ('changed', rng.randrange(1000))
                 return out, e
             if e == 'node2leaf' and node.k != 'partial':
